@@ -261,3 +261,57 @@ def enumerate_paths(ctx, body, starts, stop=None, budget=60000):
     for st in starts:
         dfs(st, (), set(), {})
     return out
+
+
+def generated_keys_persisted(ctx, rr, crate_prefixes, store_fn, who):
+    """every `get_random_keypair()` in the given crates is followed, on every path to a return, by `store_fn` of the generated
+    secret key: an identity that is used but not persisted is a different identity after the next restart"""
+    P = ctx.prog
+    n = 0
+    for bid, b in sorted(P.bodies.items()):
+        if not bid.startswith(crate_prefixes) or "::tests" in bid or "test_utils" in bid:
+            continue
+        for bb, t in b.calls():
+            if not (call_target(t) or "").endswith("cryptography::get_random_keypair"):
+                continue
+            n += 1
+            stores = []
+            for sb, st in b.calls():
+                if (call_target(st) or "") == store_fn and any(has_call(arg_origin(ctx, b, sb, i), "get_random_keypair") for i in range(len(st["args"]))):
+                    stores.append(sb)
+            nxt = b.succ(bb)
+            if stores and always_reaches(b, nxt, stores):
+                rr.ok("%s: the generated key is persisted (%s) on every path" % (shortfn(bid), shortfn(store_fn)))
+            else:
+                rr.fail("generated-key-not-persisted:%s" % shortfn(bid), "`%s` generates a fresh %s key that is not handed to `%s` on every path: it is used for this run and gone after a restart (a new identity, old receipts no longer verify)" % (shortfn(bid), who, shortfn(store_fn)), where=b.line_of(bb))
+    if n == 0:
+        rr.fail("generated-key:no-site", "no key generation site found for the %s" % who)
+
+
+def reaches_unless(ctx, body, starts, targets, stops, exempt_edge):
+    """every path from `starts` hits a block of `targets` before a block of `stops` / a return, except through switch edges whose
+    edge facts satisfy exempt_edge(facts)"""
+    targets, stops = set(targets), set(stops)
+    memo = {}
+
+    def ok(bb):
+        if bb in memo:
+            return memo[bb] is not False
+        if bb in targets:
+            memo[bb] = True
+            return True
+        if bb in stops or body.term(bb)["k"] == "return":
+            memo[bb] = False
+            return False
+        memo[bb] = None
+        res = True
+        sf = ctx.pf.switch_facts(body, bb) if body.term(bb)["k"] == "switch" else {}
+        for s_ in body.succ(bb):
+            if exempt_edge(sf.get(s_, ())):
+                continue
+            if not ok(s_):
+                res = False
+                break
+        memo[bb] = res
+        return res
+    return all(ok(s_) for s_ in starts)
